@@ -921,22 +921,30 @@ pub(crate) fn is_valid_duration(
     // in C++ with an implementation of core::remquo() with sufficient bits in the quotient.
     // String manipulation will also give an exact result, since the multiplication is by a power of 10.
     // Seconds part
-    let normalized_seconds = (days.0 as i128 * 86_400)
-        + (hours.0 as i128) * 3600
-        + minutes.0 as i128 * 60
-        + seconds.0 as i128;
-    // Subseconds part
-    let normalized_subseconds_parts = (milliseconds.0 as i128 / 1_000)
-        + (microseconds.0 as i128 / 1_000_000)
-        + (nanoseconds.0 as i128 / 1_000_000_000);
-
-    let normalized_seconds = normalized_seconds + normalized_subseconds_parts;
+    // NOTE: the total is accumulated in nanoseconds so that the sub-second fields are not
+    // truncated one by one. The contribution of every field is first checked against the
+    // limit on its own, which keeps the exact sum below far inside the range of an `i128`.
+    let max_nanoseconds = TWO_POWER_FIFTY_THREE * 1_000_000_000;
+    let mut normalized_nanoseconds = 0i128;
+    for (field, unit_nanoseconds) in [
+        (days, 86_400_000_000_000i128),
+        (hours, 3_600_000_000_000),
+        (minutes, 60_000_000_000),
+        (seconds, 1_000_000_000),
+        (milliseconds, 1_000_000),
+        (microseconds, 1_000),
+        (nanoseconds, 1),
+    ] {
+        if (field.0 * unit_nanoseconds as f64).abs() >= max_nanoseconds as f64 {
+            return false;
+        }
+        normalized_nanoseconds += field.0 as i128 * unit_nanoseconds;
+    }
     // 8. If abs(normalizedSeconds) ≥ 2**53, return false.
-    if normalized_seconds.abs() >= TWO_POWER_FIFTY_THREE {
+    if normalized_nanoseconds.abs() >= max_nanoseconds {
         return false;
     }
 
-    // 9. Return true.
     true
 }
 
